@@ -81,6 +81,8 @@ impl RegexMatcherBuilder {
         // support it.
         let mut config = self.config.clone();
         config.line_terminator = chir.line_terminator();
+        #[cfg(feature = "verif-hooks")]
+        crate::literal::verif_record_final_hir(chir.hir());
         Ok(RegexMatcher { config, regex, fast_line_regex, non_matching_bytes })
     }
 
